@@ -390,6 +390,46 @@ m("twin-loop-lowering-extracted", ["C01", "C06", "C10"], "silent", IR,
   "                let (cops, c) = self.loop_condition(&condition, ctx);\n                let l = self.label();")
 W[-1]["edits"].append(dict(file=IR, old="    fn definition(&mut self, var: Var, value: &Expression, ctx: IRContext) -> Vec<IR> {", new="    fn loop_condition(&mut self, cond: &Expression, ctx: IRContext) -> (Vec<IR>, Var) {\n        self.expression(cond, ctx)\n    }\n\n    fn definition(&mut self, var: Var, value: &Expression, ctx: IRContext) -> Vec<IR> {", count=1))
 
+# ---- session-5 rules
+m("env-params-not-monomorphic", ["C02", "C03"], ["COPY|environment|parameters-enter-before-the-body"], TC,
+  "                self.monomorphic\n                    .extend(params.iter().map(|(_, var, _, _)| *var));\n", "")
+m("env-definitions-not-monomorphic", ["C02", "C03"], ["COPY|environment|definitions-enter"], TC,
+  "            } else {\n                self.monomorphic.push(*var);\n            }", "            }")
+m("env-instantiate-copies-everything", ["C02", "C03"], ["COPY|expression|Read|variable-type|environment-stays-shared"], TC,
+  "                    no_ret(self.instantiate(ty))", "                    no_ret(self.copy(ty))")
+m("twin-env-scope-marker-renamed", ["C02"], "silent", TC,
+  "                let outside = self.monomorphic.len();", "                let depth_before = self.monomorphic.len();")
+W[-1]["edits"].append(dict(file=TC, old="                self.monomorphic.truncate(outside);", new="                self.monomorphic.truncate(depth_before);", count=1))
+m("recheck-last-statement-twice", ["C07"], ["RE-CHECK|TypeChecker::expression_block|statement+expression"], TC,
+  "            Some((Statement::StatementExpression { value, .. }, rest)) => (Some(value), rest),", "            Some((Statement::StatementExpression { value, .. }, _)) => (Some(value), statements.as_slice()),")
+m("recheck-condition-checked-twice", ["C07"], ["RE-CHECK|TypeChecker::statement|expression+expression"], TC,
+  "                let (ret, condition) = self.expression(&condition, ctx.enter_loop_condition())?;\n                let boolean = self.push_type(Type::Bool);",
+  "                self.expression(&condition, ctx.enter_loop_condition())?;\n                let (ret, condition) = self.expression(&condition, ctx.enter_loop_condition())?;\n                let boolean = self.push_type(Type::Bool);")
+m("twin-block-last-by-pop", ["C07"], "silent", TC,
+  "        let (last, statements) = match statements.split_last() {\n            Some((Statement::StatementExpression { value, .. }, rest)) => (Some(value), rest),\n            _ => (None, statements.as_slice()),\n        };",
+  "        let (last, statements) = match statements.split_last() {\n            Some((Statement::StatementExpression { value, .. }, init)) => (Some(value), init),\n            Some(_) | None => (None, &statements[..]),\n        };")
+m("lower-last-statement-twice", ["C01", "C07"], ["RE-CHECK|IRCodeGen::expression_block|statement+expression"], IR,
+  "            Some(Statement::StatementExpression { value, .. }) => {\n                block.pop();\n                Some(value)", "            Some(Statement::StatementExpression { value, .. }) => {\n                Some(value)")
+m("bracket-index-no-newline-mode", ["C14"], ["BRACKET-MODE|assignable_index|LeftBracket", "NEWLINE-MODE"], PPA,
+  "    let (mut ctx, skip_newlines) = ctx.push_skip_newlines(true);\n\n    let expr =", "    let (mut ctx, skip_newlines) = ctx.push_skip_newlines(ctx.skip_newlines);\n\n    let expr =")
+m("bracket-list-type-no-newline-mode", ["C14"], ["BRACKET-MODE|parse_type|LeftBracket", "NEWLINE-MODE"], PPA,
+  "            let (ctx, skip_newlines) = ctx.skip(1).push_skip_newlines(true);\n            let (ctx, ty) = parse_type(ctx)?;", "            let (ctx, skip_newlines) = ctx.skip(1).push_skip_newlines(false);\n            let (ctx, ty) = parse_type(ctx)?;")
+m("bracket-macro-pop-dropped", ["C14"], ["NEWLINE-FLAG"], PPA,
+  "                        ctx.pop_skip_newlines(newlines).skip(1)", "                        { let _ = newlines; ctx.skip(1) }")
+m("cursor-total-index-by-cursor", ["C07"], ["CURSOR-TOTAL"], PPA,
+  "        self.tokens\n            .iter()\n            .skip(self.last_statement)\n            .take(self.curr.saturating_sub(self.last_statement))", "        self.tokens[self.last_statement.min(self.curr)..self.curr]\n            .iter()")
+m("order-call-args-reversed-twice", ["C01"], ["ORDER-PRESERVED|Resolver::assignable|Expression::Call.args"], NR,
+  "                for arg in parser_args.iter() {\n                    args.push(self.expression(arg)?);\n                }\n                E::Call { function, args, span }\n            }\n            AK::ArrowCall",
+  "                for arg in parser_args.iter().rev() {\n                    args.push(self.expression(arg)?);\n                }\n                args.reverse();\n                E::Call { function, args, span }\n            }\n            AK::ArrowCall")
+m("child-span-blob-field-at-blob", ["C15"], ["CHILD-SPAN|expression|Blob|expr-against-key"], TC,
+  "                    self.unify(expr.span(), ctx, expr_ty, fields_and_types[key].1)?;", "                    self.unify(*span, ctx, expr_ty, fields_and_types[key].1)?;")
+m("path-segments-without-slash", ["C12"], ["PATH-FORMS|path|segments-joined-by-slash"], PST,
+  "        if !matches!(ctx.token(), T::Slash) {\n            break;\n        }\n        result.push_str(\"/\");\n        ctx = ctx.skip(1);", "        if matches!(ctx.token(), T::Slash) {\n            result.push_str(\"/\");\n            ctx = ctx.skip(1);\n        }")
+m("defer-sub-roles-swapped-harmless-twin", ["C03"], "silent", TC,
+  "                self.add_constraint(a, span, Constraint::Add(b));\n                self.add_constraint(b, span, Constraint::Add(a));", "                self.add_constraint(b, span, Constraint::Add(a));\n                self.add_constraint(a, span, Constraint::Add(b));")
+m("lua-eq-remembers-last-pair", ["C19"], ["EQ|__TUPLE_META|__eq|function-of-its-operands"], PRE,
+  "__TUPLE_META.__eq = function(a, b)\n", "__TUPLE_META.__eq = function(a, b)\n    __LAST_COMPARED = a\n")
+
 for w in W:
     with open(os.path.join(OUT, w["name"] + ".json"), "w") as fh:
         json.dump(w, fh, indent=1)
